@@ -479,6 +479,18 @@ fn type_name(t: u64) -> &'static str {
 	}
 }
 
+fn lattice_cases() -> u64 {
+	NTYPES * start_modes().len() as u64 * DURS.len() as u64 * easings().len() as u64
+}
+/// tweens observed through the whole engine (AudioManager + device callbacks of arbitrary sizes)
+const ENGINE_CASES: u64 = 4;
+const ENGINE_NAMES: [&str; 4] = [
+	"engine: tweener modulator 0->1 over 2 s linked to a sound's volume, 6 callback partitions of 32 frames (internal buffer 4)",
+	"engine: sound set_volume(-20 dB -> 0 dB over 2 s), 6 callback partitions",
+	"engine: clock set_speed(1 -> 4 ticks/s over 2 s) while the clock is not ticking, start 3 s later, 6 callback partitions",
+	"engine: clock set_speed(1 -> 4 ticks/s over 2 s) on a ticking clock, 6 callback partitions",
+];
+
 impl C06 {
 	fn decode(&self, idx: u64) -> (u64, StartMode, f64, Easing) {
 		let sms = start_modes();
@@ -502,9 +514,12 @@ impl Check for C06 {
 		Level::ModelChecking
 	}
 	fn num_cases(&self, _tier: Tier) -> u64 {
-		NTYPES * start_modes().len() as u64 * DURS.len() as u64 * easings().len() as u64
+		lattice_cases() + ENGINE_CASES
 	}
 	fn describe(&self, tier: Tier, idx: u64) -> String {
+		if idx >= lattice_cases() {
+			return ENGINE_NAMES[(idx - lattice_cases()) as usize].to_string();
+		}
 		let (t, sm, d, e) = self.decode(idx);
 		format!(
 			"type={} start={:?} duration={}s easing={:?}; all value pairs of a 4-lattice x all 3^{} update sequences over dt in {{0.5,1,2}} x second set() at every position{}",
@@ -517,11 +532,14 @@ impl Check for C06 {
 		)
 	}
 	fn sig_hint(&self, _tier: Tier, idx: u64) -> String {
+		if idx >= lattice_cases() {
+			return format!("engine #{}", idx - lattice_cases());
+		}
 		let (t, sm, d, e) = self.decode(idx);
 		format!("{} {:?} dur={} {:?}", type_name(t), sm, d, e)
 	}
 	fn rule(&self) -> String {
-		"product of 11 Tweenable types + tweener modulator x start modes (immediate, delayed 0 / 1.5 s, clock reached at update 0/1/3, clock missing, clock paused) x durations {0,0.25,1,2.5,4} x 7 easings x ordered value pairs of a 4-point lattice x every update sequence of length 6 over dt in {0.5,1,2} (729) x a second set() before every update index (different target/duration/easing); thorough adds a third set(). Model states = distinct (phase, start, target, time, remaining delay, value) of the reference; every history is replayed on the real Parameter/Tweener".into()
+		"product of 11 Tweenable types + tweener modulator x start modes (immediate, delayed 0 / 1.5 s, clock reached at update 0/1/3, clock missing, clock paused) x durations {0,0.25,1,2.5,4} x 7 easings x ordered value pairs of a 4-point lattice x every update sequence of length 6 over dt in {0.5,1,2} (729) x a second set() before every update index (different target/duration/easing); thorough adds a third set(). Model states = distinct (phase, start, target, time, remaining delay, value) of the reference; every history is replayed on the real Parameter/Tweener; plus 4 engine scenes (tweener-driven volume, sound volume tween, clock speed tween on a stopped / ticking clock) rendered through the AudioManager under 6 partitions of 32 frames into device callbacks (internal buffer 4): progress within one update of elapsed/duration, exactly on target afterwards".into()
 	}
 	fn assumptions(&self) -> Vec<String> {
 		vec![
@@ -538,6 +556,13 @@ impl Check for C06 {
 		]
 	}
 	fn run_case(&self, tier: Tier, idx: u64, ctx: &mut Ctx) {
+		if idx >= lattice_cases() {
+			let w = idx - lattice_cases();
+			if let Err(p) = catch(|| engine_pass(w, ctx)) {
+				ctx.fail(format!("panic: {} :: engine #{}", p, w), "");
+			}
+			return;
+		}
 		let (t, sm, d, e) = self.decode(idx);
 		let r = catch(|| match t {
 			0 => run_type::<f64>(tier, sm, d, e, ctx),
@@ -1014,4 +1039,137 @@ fn run_tweener(tier: Tier, sm: StartMode, dur: f64, easing: Easing, ctx: &mut Ct
 		}
 	}
 	ctx.outcome(1000);
+}
+
+// ---------------------------------------------------------------------------------------------
+// engine pass: the same laws observed through AudioManager + Renderer with device callbacks whose
+// sizes are not multiples of the internal buffer size
+
+const PARTS: [&[usize]; 6] = [&[4; 8], &[1; 32], &[6, 6, 6, 6, 6, 2], &[3, 5, 7, 9, 8], &[32], &[2; 16]];
+
+fn engine_pass(which: u64, ctx: &mut Ctx) {
+	use crate::rig;
+	use kira::sound::Region;
+	use kira::track::MainTrackBuilder;
+	use kira::Mapping;
+	const SR: u32 = 8;
+	const IBS: usize = 4;
+	let tw2 = Tween { start_time: StartTime::Immediate, duration: Duration::from_secs(2), easing: Easing::Linear };
+	for parts in PARTS {
+		ctx.evals += 1;
+		ctx.traces += 1;
+		let desc = || format!("{}; callbacks of {:?} frames at {} Hz, internal buffer {}", ENGINE_NAMES[which as usize], parts, SR, IBS);
+		let mut m = rig::manager(SR, IBS, rig::caps(2), MainTrackBuilder::new());
+		match which {
+			0 | 1 => {
+				let data = rig::static_data(SR, rig::dc_frames(4, 0.5)).loop_region(Region::from(..));
+				let mut tweener = None;
+				let mut h = if which == 0 {
+					let t = m.add_modulator(TweenerBuilder { initial_value: 0.0 }).expect("tweener");
+					let vol: Value<Decibels> = Value::FromModulator {
+						id: t.id(),
+						mapping: Mapping { input_range: (0.0, 1.0), output_range: (Decibels(-20.0), Decibels(0.0)), easing: Easing::Linear },
+					};
+					let h = m.play(data.volume(vol)).expect("play");
+					tweener = Some(t);
+					h
+				} else {
+					m.play(data.volume(-20.0)).expect("play")
+				};
+				// one aligned callback so that everything is adopted and the initial value is in force
+				let mut sink = vec![];
+				rig::render_stereo(&mut m, IBS, &mut sink);
+				if let Some(t) = tweener.as_mut() {
+					t.set(1.0, tw2);
+				} else {
+					h.set_volume(0.0, tw2);
+				}
+				let mut out: Vec<(f32, f32)> = vec![];
+				for &n in parts.iter() {
+					rig::render_stereo(&mut m, n, &mut out);
+					ctx.transitions += 1;
+				}
+				// progress v(f) in [0,1] recovered from the gain of frame f (gain dB = -20 + 20 v)
+				let dur_frames = 2.0 * SR as f64;
+				for (f, (l, _)) in out.iter().enumerate() {
+					let g = (*l as f64 / 0.5).max(1e-9);
+					let v = (20.0 * g.log10() + 20.0) / 20.0;
+					// elapsed time at the end of frame f is (f+1)/SR; allowed: one update (internal buffer) either way,
+					// plus one more buffer for the modulator -> parameter hand-over
+					let slack = if which == 0 { 2 * IBS } else { IBS } as f64;
+					let lo = ((f as f64 + 1.0 - slack) / dur_frames).clamp(0.0, 1.0) - 1e-4;
+					let hi = ((f as f64 + 1.0 + slack) / dur_frames).clamp(0.0, 1.0) + 1e-4;
+					if v < lo || v > hi {
+						ctx.fail(
+							format!("a tween's progress differs from elapsed/duration by more than one update when rendered through the engine :: engine #{}", which),
+							format!("{}; frame {}: progress {:.4} allowed [{:.4}, {:.4}]; gains {:?}", desc(), f, v, lo, hi, out.iter().map(|x| x.0).collect::<Vec<_>>()),
+						);
+						break;
+					}
+					if (f as f64) >= dur_frames + slack && *l != 0.5 {
+						ctx.fail(format!("not exactly on target after the end of the tween :: engine #{}", which), format!("{}; frame {} = {}", desc(), f, l));
+						break;
+					}
+					ctx.state(hash64(&(which, f, l.to_bits())));
+				}
+				ctx.nontrivial_extra += 1;
+				ctx.outcome(hash64(&(which, out.last().map(|x| x.0.to_bits()))));
+			}
+			_ => {
+				let mut c = m.add_clock(ClockSpeed::TicksPerSecond(1.0)).expect("clock");
+				let mut sink = vec![];
+				rig::render_stereo(&mut m, IBS, &mut sink);
+				if which == 3 {
+					c.start();
+				}
+				c.set_speed(ClockSpeed::TicksPerSecond(4.0), tw2);
+				// 3 s = 24 frames in the partition's callback sizes (cycled), then (stopped variant) start, then 1 s
+				let mut left = 24usize;
+				let mut i = 0;
+				while left > 0 {
+					let n = parts[i % parts.len()].min(left);
+					rig::render_stereo(&mut m, n, &mut sink);
+					left -= n;
+					i += 1;
+					ctx.transitions += 1;
+				}
+				// an aligned callback publishes the clock time as of the end of the 3 s phase
+				rig::render_stereo(&mut m, IBS, &mut sink);
+				let before = {
+					let t = c.time();
+					t.ticks as f64 + t.fraction
+				};
+				if which == 2 {
+					c.start();
+				}
+				let mut left = 8usize;
+				while left > 0 {
+					let n = parts[i % parts.len()].min(left);
+					rig::render_stereo(&mut m, n, &mut sink);
+					left -= n;
+					i += 1;
+				}
+				rig::render_stereo(&mut m, IBS, &mut sink);
+				let after = {
+					let t = c.time();
+					t.ticks as f64 + t.fraction
+				};
+				// the speed tween ended at least 1 s before the measured window began, so the speed is exactly 4 ticks/s:
+				// stopped variant: the clock ticks during the 8 frames that follow start(); ticking variant: during the
+				// aligned callback as well
+				let gained = after - before;
+				let want = if which == 2 { 4.0 } else { 4.0 * (8 + IBS) as f64 / SR as f64 };
+				let tol = 1e-6;
+				if (gained - want).abs() > tol {
+					ctx.fail(
+						format!("a clock-speed tween does not progress with elapsed time (the clock runs at the wrong speed after the tween's end) :: engine #{}", which),
+						format!("{}; clock time {} -> {} over the window that follows a finished 2 s speed tween to 4 ticks/s (expected a gain of {} +- {})", desc(), before, after, want, tol),
+					);
+				}
+				ctx.nontrivial_extra += 1;
+				ctx.state(hash64(&(which, after.to_bits())));
+				ctx.outcome(hash64(&(which, (gained * 8.0) as i64)));
+			}
+		}
+	}
 }
